@@ -67,10 +67,11 @@ impl<'a> BinArchiveReader<'a> {
     }
 
     pub fn read_bytes(&mut self, count: usize) -> Result<Vec<u8>> {
-        let mut result: Vec<u8> = Vec::new();
-        for _ in 0..count {
-            result.push(self.read_u8()?);
+        if count == 0 {
+            return Ok(Vec::new());
         }
+        let result = self.archive.read_bytes(self.position, count)?.to_vec();
+        self.position += count;
         Ok(result)
     }
 
